@@ -394,6 +394,36 @@ int main(int argc, char** argv)
     prop.id = "C15";
     prop.gen = genCase;
     prop.run = runCase;
+    // coverage-guided mode: every field image of a TECMP recipe builds some byte string, and the reference parse judges byte strings
+    // (MUST / NONE / EITHER), so only sizes are bounded
+    prop.normalize = [](Case& c) {
+        if (c.frames.empty())
+            c.frames.push_back(TecmpRecipe{});
+        if (c.frames.size() > 8)
+            c.frames.resize(8);
+        for (auto& r : c.frames)
+        {
+            r.kind = static_cast<uint8_t>(r.kind % 5);
+            if (r.data.size() > 300)
+                r.data.resize(300);
+            if (r.trailer.size() > 64)
+                r.trailer.resize(64);
+            if (r.extra.size() > 64)
+                r.extra.resize(64);
+            if (r.entries > 60)
+                r.entries = static_cast<uint16_t>(r.entries % 61);
+            if (r.cutAt < -1)
+                r.cutAt = -1;
+            if (r.payloadLength < -1 || r.payloadLength > 65535)
+                r.payloadLength = -1;
+            if (r.declaredLen < -1 || r.declaredLen > 255)
+                r.declaredLen = -1;
+            if (r.vendorLen < -1 || r.vendorLen > 65535)
+                r.vendorLen = -1;
+            r.special = static_cast<uint8_t>(r.special % 7);
+            r.useSerial = r.useSerial ? 1 : 0;
+        }
+    };
     prop.enumerate = enumerate;
     prop.enumerationIsExhaustive = true;
     prop.enumerationNote = "per supported kind one frame: every truncation offset (with the original and with a consistent payload length), every "
